@@ -399,10 +399,20 @@ def run_check(P, tier, seed, replay=None):
     model_inputs = [c for c in cases if c.get("op")]
     model_outs_by_idx = {}
     if ok_driver:
+        mi = []
+        mi_err = {}
+        for k, c in enumerate(model_inputs):
+            try:
+                mi.append(getattr(P, "model_input", lambda c: c)(c))
+            except Exception as e:
+                mi.append({"op": "none"})
+                mi_err[k] = {"bad": f"model_input failed: {type(e).__name__}: {e}"[:200]}
         try:
-            mo = run_driver([getattr(P, "model_input", lambda c: c)(c) for c in model_inputs])
+            mo = run_driver(mi)
         except Exception as e:
             mo = [{"bad": f"driver failed: {e}"}] * len(model_inputs)
+        for k, v in mi_err.items():
+            mo[k] = v
         k = 0
         for i, c in enumerate(cases):
             if c.get("op"):
